@@ -76,6 +76,11 @@ class PyList(tuple):
     """a Python list (display or comprehension): `+` concatenates, unlike the symbolic vectors (tuples) of the base evaluator"""
 
 
+class PyTuple(tuple):
+    """a Python tuple written as a display or made by tuple(...): `+` concatenates and `* n` repeats.  (A plain tuple also stands for an array made
+    from a list of numbers, np.array([dx, dy, dz]), where arithmetic is element-wise.)"""
+
+
 class Closure:
     def __init__(self, node, owner):
         self.node, self.owner = node, owner
@@ -312,6 +317,13 @@ class Facts:
         self.truth = []    # (value, bool)
         self.sign = []     # (value, 'pos' | 'zero' | 'neg')
         self.intvec = []   # values that are one-dimensional arrays of integer positions (index vectors, not masks)
+        self.keys = []     # (mapping value, key value, present): what the regime says about the content of a mapping the function is handed
+
+    def lookup_key(self, m, k):
+        for mm, kk, present in self.keys:
+            if eq(m, mm) and eq(k, kk):
+                return present
+        return None
 
     def lookup_truth(self, v):
         for w, t in self.truth:
@@ -336,6 +348,26 @@ class _Ctl(Exception):
     pass
 
 
+class _Raised(_Ctl):
+    """an exception the evaluated code raises for certain in the regime evaluated (a key the facts say is absent): unwinds to the enclosing
+    `try` / `with suppress(...)` of the evaluated code, or ends the function"""
+
+    def __init__(self, kind, node=None):
+        super().__init__(kind)
+        self.kind, self.node = kind, node
+
+
+EXC_PARENTS = {"KeyError": ("KeyError", "LookupError", "Exception", "BaseException")}
+
+
+def _handler_catches(handler_type, kind):
+    """does `except <handler_type>` catch an exception of class `kind`"""
+    if handler_type is None:
+        return True
+    names = [dotted(e) for e in handler_type.elts] if isinstance(handler_type, ast.Tuple) else [dotted(handler_type)]
+    return any(n is not None and n.split(".")[-1] in EXC_PARENTS.get(kind, (kind, "Exception", "BaseException")) for n in names)
+
+
 def _local_names(fn):
     out = set()
     if fn is None:
@@ -353,6 +385,17 @@ def _local_names(fn):
         elif isinstance(n, (ast.FunctionDef, ast.AsyncFunctionDef)) and n is not fn:
             out.add(n.name)
     return out
+
+
+def _walk_own(fn):
+    """the nodes of a function body without those of nested functions / lambdas"""
+    todo = list(fn.body)
+    while todo:
+        n = todo.pop()
+        yield n
+        for ch in ast.iter_child_nodes(n):
+            if not isinstance(ch, (ast.FunctionDef, ast.AsyncFunctionDef, ast.Lambda, ast.ClassDef)):
+                todo.append(ch)
 
 
 def _ends_in_raise(stmts):
@@ -382,6 +425,8 @@ class CBEval(AutoEvaluator):
         self.raised = None
         self.ambiguous = None                  # an undecided test guards a return: the returned value is not known
         self.active = ()
+        self.yields = []                       # values yielded so far (a generator function is the tuple of what it yields)
+        self.has_yield = fn is not None and any(isinstance(x, (ast.Yield, ast.YieldFrom)) for x in _walk_own(fn))
 
     # ------------------------------------------------------------------ small helpers
     def buf_of(self, v):
@@ -542,10 +587,22 @@ class CBEval(AutoEvaluator):
                 if t is not None:
                     elts = t
                 else:
-                    return v
+                    return _mask_of_positions(v)
+        return self._pack_index(elts)
+
+    @staticmethod
+    def _pack_index(elts):
+        """canonical value of an index given item by item: trailing full slices (and a trailing `...`) select everything that is left"""
+        elts = list(elts)
         full = F.fn("slice", NONE, NONE, NONE)
-        while elts and eq(elts[-1], full):
+        while elts and (eq(elts[-1], full) or eq(elts[-1], F.sym("Ellipsis"))):
             elts.pop()
+        if len(elts) == 2 and _is_vector_index(elts[1]):
+            u0 = unfn(elts[0])
+            if u0 is not None and u0[0] == "idx" and _is_vector_index(u0[1][0]):
+                t0 = untuple(u0[1][1])
+                if t0 is not None and len(t0) == 2 and eq(t0[0], full) and (eq(t0[1], NONE) or symname(t0[1]) == "np.newaxis"):
+                    return F.fn("call:np.ix_", u0[1][0], elts[1])          # X[r[:, None], c]: the open mesh np.ix_(r, c) written by hand
         if not elts:
             return full
         if len(elts) == 1:
@@ -556,7 +613,7 @@ class CBEval(AutoEvaluator):
         x = self.as_rat(x)
         if is_unknown(x):
             raise Unsupported(x.why)
-        return x
+        return _mask_of_positions(x)
 
     def _index_elt(self, e):
         if isinstance(e, ast.Slice):
@@ -606,6 +663,8 @@ class CBEval(AutoEvaluator):
             c = self._math_const(n)
             if c is not None:
                 return c
+            if self.aliases is not None and n in self.aliases["member"] and not self.is_object_root(n) and n not in self.inline:
+                return F.sym(self.aliases["member"][n])          # `from collections.abc import MutableMapping`: the same value as abc.MutableMapping
             return F.sym(n)
         if isinstance(node, ast.Constant) and isinstance(node.value, bytes):
             return F.sym(repr(node.value))
@@ -670,6 +729,16 @@ class CBEval(AutoEvaluator):
                 return v
             v = self.as_rat(v)
             return v if is_unknown(v) else F.fn("star", v)
+        if isinstance(node, ast.Yield):
+            self.yields.append(self.ev_ref(node.value) if node.value is not None else NONE)
+            return NONE
+        if isinstance(node, ast.YieldFrom):
+            v = self.ev(node.value)
+            if isinstance(v, tuple):
+                self.yields.extend(v)
+            else:
+                self.ambiguous = "yield from a sequence of unknown length"
+            return NONE
         if isinstance(node, ast.Lambda):
             # a lambda is a closure whose body is one return statement
             fd = ast.FunctionDef(name="<lambda>", args=node.args, body=[ast.Return(value=node.body)], decorator_list=[], returns=None, type_comment=None)
@@ -683,7 +752,12 @@ class CBEval(AutoEvaluator):
             a, b = self.as_rat(self._ev(node.left)), self.as_rat(self._ev(node.comparators[0]))
             if is_unknown(a) or is_unknown(b):
                 return a if is_unknown(a) else b
-            return F.fn("cmp:" + type(node.ops[0]).__name__, a, b)
+            return _cmp(type(node.ops[0]).__name__, a, b)
+        if isinstance(node, (ast.Tuple, ast.List)) and len(node.elts) >= 2 and all(isinstance(e, ast.Starred) for e in node.elts):
+            # [*a, *b]: the elements of a followed by those of b
+            xs = [self.ev(e.value) for e in node.elts]
+            if all(is_rat(x) and not x.is_const() for x in xs):
+                return F.fn("cat", *xs)
         if isinstance(node, (ast.Tuple, ast.List)):
             out = []
             for e in node.elts:
@@ -695,7 +769,7 @@ class CBEval(AutoEvaluator):
                         return Unknown("starred element of unknown length")
                 else:
                     out.append(self.ev_ref(e))
-            return PyList(out) if isinstance(node, ast.List) else tuple(out)
+            return PyList(out) if isinstance(node, ast.List) else PyTuple(out)
         return super()._ev(node)
 
     def _math_const(self, d):
@@ -713,6 +787,10 @@ class CBEval(AutoEvaluator):
             return b
         if isinstance(a, PyList) and isinstance(b, (PyList, tuple)) and isinstance(op, ast.Add):
             return PyList(tuple(a) + tuple(b))
+        if isinstance(a, PyTuple) and isinstance(b, PyTuple) and isinstance(op, ast.Add):
+            return PyTuple(tuple(a) + tuple(b))
+        if isinstance(a, PyTuple) and is_rat(b) and b.is_const() and isinstance(op, ast.Mult) and b.const_value().denominator == 1:
+            return PyTuple(tuple(a) * int(b.const_value()))
         if isinstance(a, PyList) and is_rat(b) and b.is_const() and isinstance(op, ast.Mult) and b.const_value().denominator == 1:
             return PyList(tuple(a) * int(b.const_value()))
         if isinstance(a, tuple) and isinstance(b, tuple) and isinstance(op, ast.MatMult):
@@ -759,7 +837,7 @@ class CBEval(AutoEvaluator):
                 if self.module_consts and root in self.module_consts:
                     pass
                 else:
-                    return F.sym(d)
+                    return F.sym(self._canon_name(d))          # a member of a module, by its canonical name (however the module was imported)
         base = self._ev(node.value)
         if isinstance(base, NS):
             if node.attr in base.fields:
@@ -865,9 +943,18 @@ class CBEval(AutoEvaluator):
         u = unfn(base)
         if u is not None and u[0] == "attr:shape" and is_rat(ix) and ix.is_const():
             return self.dim(u[1][0], ix)
+        ix = self._expand_ellipsis(base, ix)
+        if u is not None and u[0] == "attr:T" and is_rat(ix) and untuple(ix) is None and (_is_vector_index(ix) or _is_slice(ix)):
+            # rows of the transpose are columns: X.T[r] is X[:, r].T
+            return self._transpose(F.fn("idx", u[1][0], F.fn("tuple", F.fn("slice", NONE, NONE, NONE), ix)))
         ch = _chained(base, ix)
         if ch is not None:
             return ch
+        if self.facts.keys and is_rat(ix) and self.facts.lookup_key(base, ix) is False:
+            raise _Raised("KeyError", node)
+        pushed = self._push_index(base, ix)
+        if pushed is not None:
+            return pushed
         b = self.buf_of(base)
         if b is not None and self.forward_stores:
             last = None
@@ -877,6 +964,48 @@ class CBEval(AutoEvaluator):
             if last is not None and is_rat(last[1]) and eq(last[1], ix):
                 return last[2]
         return F.fn("idx", base, ix)
+
+    def _expand_ellipsis(self, base, ix):
+        """X[..., c] with the number of axes of X stated by the facts: the `...` written out as full slices (X[:, c] for a matrix)"""
+        t = untuple(ix) if is_rat(ix) else None
+        if t is None or not any(symname(x) == "Ellipsis" for x in t if is_rat(x)):
+            return ix
+        dims = self.dims_of(base)
+        if dims is None or sum(1 for x in t if symname(x) == "Ellipsis") != 1:
+            return ix
+        k = [i for i, x in enumerate(t) if symname(x) == "Ellipsis"][0]
+        nfill = len(dims) - (len(t) - 1)
+        if nfill < 0:
+            return ix
+        full = F.fn("slice", NONE, NONE, NONE)
+        return self._pack_index(list(t[:k]) + [full] * nfill + list(t[k + 1:]))
+
+    def _push_index(self, base, ix):
+        """(c X^n)[i] is c X[i]^n for one array X and scalars c (numbers, pi, the imaginary unit), also with X in a denominator: selecting elements
+        commutes with element-wise operations on a single array, so `w2 = Omega ** 2; w2[nz]` and `Omega[nz] ** 2` are one value"""
+        if not is_rat(base) or not is_rat(ix) or len(base.n.t) != 1 or len(base.d.t) != 1:
+            return None
+        scal = F.const(1)
+        arrays = {}
+        for poly, sgn in ((base.n, 1), (base.d, -1)):
+            (mono, c), = poly.t.items()
+            scal = scal * F.const(c) if sgn == 1 else scal / F.const(c)
+            for a, e in mono:
+                av = F.Rat(F.Poly.atom(a))
+                if eq(av, F.I) or symname(av) in ("pi",):
+                    scal = scal * av ** e if sgn == 1 else scal / av ** e
+                else:
+                    arrays[a] = arrays.get(a, 0) + sgn * e
+        if len(arrays) != 1:
+            return None
+        (a, e), = arrays.items()
+        av = F.Rat(F.Poly.atom(a))
+        if (e == 1 and scal.is_const() and scal.const_value() == 1) or e == 0:
+            return None          # a plain array: nothing to push through
+        if self.buf_of(av) is not None:
+            return None
+        sel = F.fn("idx", av, ix)
+        return scal * sel ** e if e > 0 else scal / sel ** (-e)
 
     def _comprehension(self, node, elt, key):
         if len(node.generators) != 1 or node.generators[0].is_async:
@@ -967,6 +1096,10 @@ class CBEval(AutoEvaluator):
             return d
         if rest:
             m = self.aliases["module"].get(root)
+            if m is None and "." in rest and root not in self.aliases["member"]:
+                # package.module.member written out in full (np.linalg.solve, collections.abc.MutableMapping): the module by its canonical name
+                mod_, _, last = d.rpartition(".")
+                return _canon_mod(mod_) + "." + last
             return d if m is None else m + "." + rest
         return self.aliases["member"].get(root, d)
 
@@ -996,11 +1129,18 @@ class CBEval(AutoEvaluator):
         recv = None
         name, closure, pre_pos, pre_kws = d, None, [], {}
         if isinstance(func, ast.Attribute) and (d is None or self.is_object_root(dotted(func).split(".")[0])):
-            recv = self.ev_ref(func.value) if func.attr in ("copy", "astype") else self.ev(func.value)
+            recv = self.ev_ref(func.value) if func.attr in ("copy", "astype", "__setitem__") else self.ev(func.value)
             name = "." + func.attr
         elif not isinstance(func, ast.Attribute):
             # a name bound in this activation, or any other expression that yields something callable (a lambda called on the spot, `(f if c else g)(x)`)
-            fv = self.env.get(func.id) if isinstance(func, ast.Name) else self.ev(func)
+            if isinstance(func, ast.Name):
+                fv = self.env.get(func.id)
+                if fv is None and self.module_consts and func.id in self.module_consts and func.id not in self.inline:
+                    fv = self.ev(func)          # a module-level name bound to a function of another module (`_flip = locate.flippv`)
+                    if not (is_rat(fv) and symname(fv) is not None and "." in symname(fv)):
+                        fv = None
+            else:
+                fv = self.ev(func)
             c = self._callee(fv) if fv is not None else None
             if c is not None:
                 name, closure, pre_pos, pre_kws = c
@@ -1010,12 +1150,13 @@ class CBEval(AutoEvaluator):
             return Unknown(f"call of {ast.unparse(func)[:40]}")
         # ---- arguments, evaluated once (an array handed to a function that is followed is handed over as the object it is)
         followed = closure is not None or (recv is None and name in self.inline) or name in LIKE
+        first_ref = name in ("np.put", "operator.setitem")          # the array stored into is handed over as the object it is
         pos, kws = [], dict(pre_kws)
         if recv is not None:
             pos.append(recv)
         pos.extend(pre_pos)
         for a in node.args:
-            if followed and not isinstance(a, ast.Starred):
+            if (followed or (first_ref and a is node.args[0])) and not isinstance(a, ast.Starred):
                 pos.append(self.ev_ref(a))
                 continue
             if isinstance(a, ast.Starred):
@@ -1053,6 +1194,35 @@ class CBEval(AutoEvaluator):
             c = self._callee(pos[0])
             if c is not None:
                 return tuple(self._dispatch(c[0], c[2] + list(row), dict(c[3]), node, c[1]) for row in zip(*pos[1:]))
+        # ---- other spellings of f.write(text) and of X[i] = v
+        if name == "print" and "file" in kws and is_rat(kws["file"]) and not eq(kws["file"], NONE) and all(is_rat(x) for x in pos):
+            end = kws.get("end", F.sym(repr("\n")))
+            text = pos[0] if len(pos) == 1 else (F.fn("printargs", *pos) if pos else F.sym("''"))
+            if is_rat(end) and strconst(end) != "":
+                text = self.binop_values(ast.Add(), text, end)
+            self._record(".write", [kws["file"], text], {}, node)
+            return NONE
+        if name == ".writelines" and len(pos) == 2 and isinstance(pos[1], tuple) and not kws:
+            for x in pos[1]:
+                self._record(".write", [pos[0], x], {}, node)
+            return NONE
+        if name in ("operator.setitem", ".__setitem__") and len(pos) == 3 and not kws and is_rat(pos[0]):
+            self._store_value(pos[0], pos[1], pos[2], node)
+            return NONE
+        if name == "np.put" and len(pos) == 3 and not kws and is_rat(pos[0]):
+            b0 = self.buf_of(pos[0])
+            if b0 is not None and isinstance(b0.shape, tuple) and len(b0.shape) == 1:
+                self._store_value(pos[0], pos[1], pos[2], node)          # on a one-dimensional array np.put(A, i, v) is A[i] = v
+                return NONE
+        if name == "ytools.mkpattvec":
+            # mkpattvec(start, stop, inc) is start[:, None] + arange(0, stop, inc): a constant offset of the start values is an offset of the
+            # result, so mkpattvec([3, 4, 5], n, 6) and mkpattvec([0, 1, 2], n, 6) + 3 are one value
+            p2, k2 = self._canon_args(name, pos, kws)
+            if not k2 and len(p2) == 3 and isinstance(p2[0], tuple) and p2[0] and all(is_rat(x) and x.is_const() for x in p2[0]):
+                lo = min(x.const_value() for x in p2[0])
+                if lo != 0:
+                    base = self._dispatch(name, [type(p2[0])(x - F.const(lo) for x in p2[0])] + list(p2[1:]), {}, node)
+                    return base + F.const(lo) if is_rat(base) else base
         # ---- functions of the same module: follow on the values
         if name in self.inline and self.depth < MAX_DEPTH and self.inline[name] not in self.active and self.inline[name] is not self.fn:
             r = self._follow(self.inline[name], node, pos=pos, kws=kws)
@@ -1136,6 +1306,12 @@ class CBEval(AutoEvaluator):
             return NONE
         if name == ".get" and n >= 2 and isinstance(pos[0], DictValue) and strconst(pos[1]) is not None:
             return pos[0].d.get(strconst(pos[1]), pos[2] if n > 2 else NONE)
+        if name == ".get" and 2 <= n <= 3 and not kws and is_rat(pos[0]) and is_rat(pos[1]) and self.facts.keys:
+            present = self.facts.lookup_key(pos[0], pos[1])
+            if present is True:
+                return F.fn("idx", pos[0], pos[1])
+            if present is False:
+                return pos[2] if n == 3 else NONE
         if name in (".items", ".keys", ".values") and n == 1 and isinstance(pos[0], DictValue) and not kws:
             d = pos[0].d
             if name == ".keys":
@@ -1162,7 +1338,9 @@ class CBEval(AutoEvaluator):
             return F.fn("slice", *a)
         if name in ("tuple", "list") and n == 1:
             if isinstance(pos[0], tuple):
-                return pos[0]
+                return PyTuple(pos[0]) if name == "tuple" else PyList(pos[0])
+        if name in ("tuple", "list") and n == 0 and not kws:
+            return PyTuple() if name == "tuple" else PyList()
         if name == "len" and n == 1 and isinstance(pos[0], tuple):
             return F.const(len(pos[0]))
         if name == "len" and n == 1 and is_rat(pos[0]) and not kws:
@@ -1181,8 +1359,9 @@ class CBEval(AutoEvaluator):
         if name in ZERO or name in LIKE:
             fill = ZERO.get(name, LIKE.get(name))
             shape = None
-            if name in ZERO and pos:
-                shape = pos[0] if isinstance(pos[0], tuple) else (pos[0],)
+            if name in ZERO and (pos or "shape" in kws):
+                shp0 = pos[0] if pos else kws["shape"]
+                shape = shp0 if isinstance(shp0, tuple) else (shp0,)
             elif name in LIKE and pos and is_rat(pos[0]):
                 b0 = self.buf_of(pos[0])
                 shape = b0.shape if b0 is not None else ("like", pos[0])
@@ -1197,6 +1376,8 @@ class CBEval(AutoEvaluator):
             if name in ("np.ravel",) and is_rat(pos[0]) and single_atom(pos[0]) is not None:
                 self.w.flat.add(single_atom(pos[0]))
             return tuple(pos[0]) if isinstance(pos[0], PyList) else pos[0]
+        if name == ".astype" and n == 2 and is_rat(pos[0]) and is_rat(pos[1]) and symname(pos[1]) in ("bool", "np.bool_", "np.bool"):
+            return _cmp("NotEq", self.deref(pos[0]), F.const(0))          # truth of an element is `element != 0`
         if name in (".copy", ".astype") and n >= 1 and is_rat(pos[0]):
             b0 = self.buf_of(pos[0])
             x = self.deref(pos[0])
@@ -1221,12 +1402,35 @@ class CBEval(AutoEvaluator):
                 u0 = unfn(p[0])
                 if u0 is not None and u0[0] == "cmp:NotEq" and len(u0[1]) == 2 and is_rat(u0[1][1]) and u0[1][1].is_zero():
                     p = [u0[1][0]] + list(p[1:])          # truth of an element is `element != 0`
+            if name == ".all" and "axis" in k and len(p) == 1 and is_rat(p[0]):
+                # along an axis: all(m) is ~any(~m); (X == 0).all(axis=0) is ~X.any(axis=0)
+                inner = self._builtin(".any", [_invert(p[0])], dict(k), node)
+                if is_rat(inner):
+                    return _invert(inner)
             if name == ".nonzero":
+                b0 = self.buf_of(p[0])
+                if b0 is not None and is_rat(b0.init) and b0.init.is_const() and b0.init.const_value() == 1 and isinstance(b0.shape, tuple) \
+                        and len(b0.shape) == 1 and is_rat(b0.shape[0]):
+                    cl0 = [c for c in self.w.cells if c[0] == b0.bid]
+                    if len(cl0) == 1 and is_rat(cl0[0][1]) and is_rat(cl0[0][2]) and cl0[0][2].is_zero() and b0.bid not in self.w.maybe:
+                        # all true, false at pv, positions of what is left: locate.flippv(pv, n) written out
+                        return (self._dispatch("locate.flippv", [cl0[0][1], b0.shape[0]], {}, node),)
                 return (F.fn("nonzero0", p[0]), F.fn("nonzero1", p[0]))
             self._record(name, p, k, node)
             return self._opaque(name, p, k)
         if name in NP_CMP and n == 2 and rat and not kws:
-            return F.fn("cmp:" + NP_CMP[name], pos[0], pos[1])
+            return _cmp(NP_CMP[name], pos[0], pos[1])
+        if name in ("np.take", ".take") and n == 2 and rat and is_rat(kws.get("axis")) and set(kws) == {"axis"} and kws["axis"].is_const():
+            ax = kws["axis"].const_value()
+            if ax == 0:
+                return F.fn("idx", pos[0], pos[1])
+            if ax == 1:
+                return F.fn("idx", pos[0], F.fn("tuple", F.fn("slice", NONE, NONE, NONE), pos[1]))
+        if name == "np.setdiff1d" and n == 2 and rat and not kws:
+            u0 = unfn(pos[0])
+            if u0 is not None and u0[0] == "arange0" and len(u0[1]) == 1:
+                # the sorted values of range(n) that are not in pv: what locate.flippv(pv, n) returns
+                return self._dispatch("locate.flippv", [pos[1], u0[1][0]], {}, node)
         if name == "np.flatnonzero" and n == 1 and rat:
             return F.fn("nonzero0", pos[0])
         if name in ("np.abs", "np.absolute", "abs") and n == 1 and is_rat(pos[0]):
@@ -1266,14 +1470,29 @@ class CBEval(AutoEvaluator):
             return self._transpose(pos[0])
         if name in ("np.dot", "np.matmul", ".dot") and n == 2 and rat:
             return pos[0] * pos[1]
+        if name in ("np.linalg.multi_dot", "linalg.multi_dot") and n == 1 and isinstance(pos[0], tuple) and pos[0] and all(is_rat(x) for x in pos[0]):
+            tot = pos[0][0]
+            for x in pos[0][1:]:
+                tot = tot * x
+            return tot
         if name == "np.logical_not" and n == 1 and rat:
             return _invert(pos[0])
         if name in ("np.logical_or", "np.logical_and") and n == 2 and rat:
             return _mask("BitOr" if name.endswith("or") else "BitAnd", pos[0], pos[1])
+        if name == "np.append" and n == 2 and rat and not kws and not pos[0].is_const() and not pos[1].is_const():
+            return F.fn("cat", pos[0], pos[1])          # without an axis both are flattened and joined
         if name in ("np.hstack", "np.concatenate", "np.r_") and n >= 1 and isinstance(pos[0], tuple):
             xs = [self.as_rat(x) for x in pos[0]]
             if all(is_rat(x) for x in xs):
                 return F.fn("cat", *xs)
+        if name == "np.arange" and 1 <= n <= 3 and rat and not kws and all(x.is_const() and x.const_value().denominator == 1 for x in pos):
+            r_ = range(*[int(x.const_value()) for x in pos])
+            if len(r_) <= 16:
+                return tuple(F.const(i) for i in r_)          # np.arange(3) is the array [0, 1, 2]
+        if name in ("np.isin", "np.in1d") and n == 2 and rat and not kws:
+            u0 = unfn(pos[0])
+            if u0 is not None and u0[0] == "arange0" and len(u0[1]) == 1:
+                return self._dispatch("locate.index2bool", [pos[1], u0[1][0]], {}, node)          # membership mask of pv over range(n)
         if name == "np.arange" and 1 <= n <= 2 and rat and not kws:
             lo, hi = (F.const(0), pos[0]) if n == 1 else pos
             return lo + F.fn("arange0", hi - lo)
@@ -1317,19 +1536,29 @@ class CBEval(AutoEvaluator):
                 else:
                     kws[k.arg] = v
         a = fn.args
-        if a.vararg or a.kwarg or "**" in kws:
+        if "**" in kws:
             return NotImplemented
         params = [x.arg for x in a.posonlyargs + a.args]
         kwonly = [x.arg for x in a.kwonlyargs]
-        if len(pos) > len(params):
+        if len(pos) > len(params) and not a.vararg:
             return NotImplemented
         argenv = {}
         for p_, v in zip(params, pos):
             argenv[p_] = v
+        if a.vararg:
+            argenv[a.vararg.arg] = PyTuple(pos[len(params):])          # *args collects the remaining positional values
+        extra = {}
         for k, v in kws.items():
-            if (k not in params and k not in kwonly) or k in argenv:
+            if k in argenv:
                 return NotImplemented
+            if k not in params and k not in kwonly:
+                if not a.kwarg:
+                    return NotImplemented
+                extra[k] = v
+                continue
             argenv[k] = v
+        if a.kwarg:
+            argenv[a.kwarg.arg] = DictValue(extra)
         dflt = dict(zip(params[::-1], (a.defaults or [])[::-1]))
         for p_ in params:
             if p_ not in argenv:
@@ -1355,6 +1584,10 @@ class CBEval(AutoEvaluator):
         if closure is not None:
             sub.localnames |= closure.owner.localnames
         sub.run(fn.body)
+        if sub.has_yield:
+            if sub.ambiguous is not None or sub.raised is not None:
+                return Unknown(f"generator {fn.name}: the yielded values are not known in this regime")
+            return tuple(sub.yields)
         if sub.raised is not None:
             return Unknown(f"{fn.name} raises in this regime")
         if sub.ambiguous is not None:
@@ -1421,6 +1654,8 @@ class CBEval(AutoEvaluator):
                 return False if all(r is False for r in rs) else None
             if nm.startswith("cmp:") and len(args) == 2:
                 return self._decide_cmp(nm[4:], args[0], args[1])
+            if nm in ("call:bool", "call:operator.truth") and len(args) == 1 and not isinstance(args[0], str):
+                return self.decide_value(args[0])
             q = _quantifier(v)
             if q is not None:
                 # x.all() is `not (~x).any()`, x.any() is `not (~x).all()`: a fact stated about one spelling decides the other
@@ -1459,6 +1694,22 @@ class CBEval(AutoEvaluator):
             t = self.facts.lookup_truth(F.fn("cmp:" + comp[op], a, b))
             if t is not None:
                 return not t
+        if op in ("Eq", "NotEq", "Is", "IsNot"):
+            # a truth value compared with True / False: bool(x) == True, (n == 0) is False
+            for x, y in ((a, b), (b, a)):
+                yv = {"True": True, "False": False}.get(symname(y))
+                if yv is None and y.is_const() and y.const_value() in (0, 1):
+                    yv = bool(y.const_value())          # the literal True / False is read as 1 / 0
+                if yv is not None and (_is_py_bool(x) if op in ("Is", "IsNot") else _is_truth_value(x)):
+                    t = self.decide_value(x)
+                    if t is None:
+                        return None
+                    same = t == yv
+                    return same if op in ("Eq", "Is") else not same
+        if op in ("In", "NotIn") and self.facts.keys:
+            present = self.facts.lookup_key(b, a)
+            if present is not None:
+                return present if op == "In" else not present
         if op in ("Is", "IsNot", "Eq", "NotEq") and (eq(a, NONE) or eq(b, NONE)):
             o = b if eq(a, NONE) else a
             r = self._not_none(o)
@@ -1536,6 +1787,16 @@ class CBEval(AutoEvaluator):
                 break
             self.stmt(st)
 
+    def run_top(self, stmts):
+        """run a function body: an exception raised for certain that nothing in the function catches ends it"""
+        try:
+            self.run(stmts)
+        except _Raised as e:
+            if self.depth > 0:
+                raise          # unwinds into the caller, which may catch it
+            self.raised = e.node or self.fn
+            self.done = True
+
     def stmt(self, st):
         if self.done or self.ctl:
             return
@@ -1577,6 +1838,9 @@ class CBEval(AutoEvaluator):
             else:
                 self._undecided_if(st)
             return
+        if isinstance(st, ast.Match):
+            self.stmt(self._match_as_if(st))
+            return
         if isinstance(st, ast.For):
             self._for(st)
             return
@@ -1590,15 +1854,30 @@ class CBEval(AutoEvaluator):
                     self._assign(it.optional_vars, v, st)
             if self.handler_path is not None and any(_is_suppress(it.context_expr) for it in st.items) and self.handler_path(st):
                 return          # `with suppress(E): body` is `try: body / except E: pass`; on the handler path the body raised at once
-            self.run(st.body)
+            try:
+                self.run(st.body)
+            except _Raised as e:
+                sup = [it.context_expr for it in st.items if _is_suppress(it.context_expr)]
+                if not any(_handler_catches(a, e.kind) for c in sup for a in c.args):
+                    raise
             return
         if isinstance(st, ast.Try):
             if self.handler_path is not None and self.handler_path(st) and st.handlers:
                 self.run(st.handlers[0].body)
             else:
-                self.run(st.body)
-                if not self.done and not self.ctl:
-                    self.run(st.orelse)
+                try:
+                    self.run(st.body)
+                except _Raised as e:
+                    hs = [h for h in st.handlers if _handler_catches(h.type, e.kind)]
+                    if not hs:
+                        self.run(st.finalbody)
+                        raise
+                    if hs[0].name:
+                        self.env[hs[0].name] = F.sym(f"<{e.kind}>")
+                    self.run(hs[0].body)
+                else:
+                    if not self.done and not self.ctl:
+                        self.run(st.orelse)
             if not self.done and not self.ctl:
                 self.run(st.finalbody)
             return
@@ -1644,6 +1923,70 @@ class CBEval(AutoEvaluator):
             return
         # Pass, Assert, Global, Delete ...: no effect on values
 
+    _nmatch = 0
+
+    def _match_as_if(self, st):
+        """a `match` statement as the if / elif chain it stands for: literal and singleton patterns, alternatives, wildcard, capture, guards, and
+        sequence patterns against a tuple display; anything else becomes a test nobody can decide"""
+        CBEval._nmatch += 1
+        subj = f"__match{CBEval._nmatch}"
+        self.localnames.add(subj)
+        self.env[subj] = self.ev_ref(st.subject)
+        parts = None
+        if isinstance(st.subject, ast.Tuple) and isinstance(self.env[subj], tuple):
+            parts = []
+            for i, x in enumerate(self.env[subj]):
+                nm = f"{subj}_{i}"
+                self.localnames.add(nm)
+                self.env[nm] = x
+                parts.append(nm)
+
+        def load(nm):
+            return ast.Name(id=nm, ctx=ast.Load())
+
+        def test_of(pat, nm, binds):
+            """the test a pattern makes on the value held in the name `nm` (None: always true); captures go to `binds`"""
+            if isinstance(pat, ast.MatchValue):
+                return ast.Compare(left=load(nm), ops=[ast.Eq()], comparators=[pat.value])
+            if isinstance(pat, ast.MatchSingleton):
+                return ast.Compare(left=load(nm), ops=[ast.Is()], comparators=[ast.Constant(value=pat.value)])
+            if isinstance(pat, ast.MatchAs):
+                t = test_of(pat.pattern, nm, binds) if pat.pattern is not None else None
+                if pat.name is not None:
+                    binds.append(ast.Assign(targets=[ast.Name(id=pat.name, ctx=ast.Store())], value=load(nm), lineno=st.lineno, col_offset=0))
+                return t
+            if isinstance(pat, ast.MatchOr):
+                ts = [test_of(q, nm, binds) for q in pat.patterns]
+                return None if any(t is None for t in ts) else ast.BoolOp(op=ast.Or(), values=ts)
+            if isinstance(pat, ast.MatchSequence) and parts is not None and nm == subj and len(pat.patterns) == len(parts) \
+                    and not any(isinstance(q, ast.MatchStar) for q in pat.patterns):
+                ts = [t for t in (test_of(q, pn, binds) for q, pn in zip(pat.patterns, parts)) if t is not None]
+                return None if not ts else (ts[0] if len(ts) == 1 else ast.BoolOp(op=ast.And(), values=ts))
+            return ast.Call(func=ast.Name(id="__pattern_not_lowered__", ctx=ast.Load()), args=[load(nm)], keywords=[])
+
+        chain = None
+        for case in reversed(st.cases):
+            binds = []
+            t = test_of(case.pattern, subj, binds)
+            if case.guard is not None:
+                # a guard may use the captured names: bind them first (a capture pattern cannot fail)
+                t = case.guard if t is None else ast.BoolOp(op=ast.And(), values=[t, case.guard])
+                pre = binds
+            else:
+                pre = []
+            body = (binds if not pre else []) + list(case.body)
+            if t is None:
+                node = ast.If(test=ast.Constant(value=True), body=body, orelse=[])
+            else:
+                node = ast.If(test=t, body=body, orelse=[chain] if chain is not None else [])
+            if pre:
+                node = ast.If(test=ast.Constant(value=True), body=pre + [node], orelse=[])
+            chain = node
+        for n in ast.walk(chain):
+            if not hasattr(n, "lineno"):
+                n.lineno, n.col_offset, n.end_lineno, n.end_col_offset = st.lineno, st.col_offset, st.lineno, st.col_offset
+        return chain
+
     def _alloc_shape(self, vnode):
         return None          # allocations are array objects as soon as they are evaluated (see _builtin)
 
@@ -1662,9 +2005,15 @@ class CBEval(AutoEvaluator):
                         depth=self.depth, env=dict(self.env), cond=self.cond, src=self.src, subscript=self.subscript, pinned=self.pinned)
             sb.module_consts, sb.erase_T, sb.forward_stores, sb.active, sb.localnames = self.module_consts, self.erase_T, self.forward_stores, self.active, self.localnames
             sb.sigs, sb.aliases = self.sigs, self.aliases
-            sb.run(arm)
+            sb.has_yield = False
+            try:
+                sb.run(arm)
+            except _Raised:
+                sb.ambiguous = "raises"
             outs.append(sb)
         a, b = outs
+        if a.yields or b.yields:
+            self.ambiguous = f"undecided test `{ast.unparse(st.test)[:60]}` guards a yield"
         self.w.undecided.append(st)
         n0 = len(self.w.cells)
         for sb in outs:
@@ -1728,7 +2077,10 @@ class CBEval(AutoEvaluator):
             u = split_call(itv)
             if u is not None and u[0] == "range":
                 self.env[st.target.id] = F.sym("%" + st.target.id)
+        ny = len(self.yields)
         self.run(st.body)
+        if len(self.yields) != ny:
+            self.ambiguous = "yield inside a loop of unknown length"
         self.ctl = None
 
     def _while(self, st):
@@ -1750,7 +2102,7 @@ class CBEval(AutoEvaluator):
             n = target.id
             if n in self.pinned:
                 return
-            if (n in self.buffers or shape is not None) and is_rat(v) and self.buf_of(v) is None and not (shape is None and self._is_handed_object(v)):
+            if (n in self.buffers or shape is not None) and is_rat(v) and self.buf_of(v) is None and not (shape is None and (self._is_handed_object(v) or _is_attr_view(v))):
                 self.env[n] = self.new_buf(n, v, st, shape).sym
             else:
                 self.env[n] = v
@@ -1811,6 +2163,14 @@ class CBEval(AutoEvaluator):
                         # an array the function was handed (a symbol): the object is that symbol, whatever the local is called
                         b = Buf(symname(cur), symname(cur), None, None, st)
                         self.w.bufs[b.bid] = b
+                    elif b is None and _is_attr_view(cur):
+                        # a name bound to an attribute of an object (`rows = uset.iloc`): the store goes to that object, as uset.iloc[...] = v does
+                        key = "val:" + repr(cur)
+                        b = self.w.bufs.get(key)
+                        if b is None:
+                            b = Buf(key, key, cur, None, st)
+                            b.sym = cur
+                            self.w.bufs[key] = b
                     elif b is None:
                         b = self.new_buf(n, cur, st)
                         self.env[n] = b.sym
@@ -1835,6 +2195,31 @@ class CBEval(AutoEvaluator):
             self.w.seq += 1
             self.w.cells.append((b.bid, ix, v, st, self.w.seq))
             return
+
+    def _store_value(self, bv, ix, v, st):
+        """the store bv[ix] = v where the array and the index are given as values (operator.setitem, X.__setitem__, np.put)"""
+        b = self.buf_of(bv)
+        if b is None and self._is_handed_object(bv):
+            b = self.w.bufs.get(symname(bv))
+            if b is None:
+                b = Buf(symname(bv), symname(bv), None, None, st)
+                self.w.bufs[b.bid] = b
+        elif b is None:
+            key = "val:" + repr(bv)
+            b = self.w.bufs.get(key)
+            if b is None:
+                b = Buf(key, key, bv, None, st)
+                b.sym = bv
+                self.w.bufs[key] = b
+        if isinstance(ix, tuple):
+            try:
+                elts = [self._norm_index_item(x) for x in ix]
+            except Unsupported as e:
+                elts, ix = None, Unknown(str(e))
+            if elts is not None:
+                ix = self._pack_index(elts)
+        self.w.seq += 1
+        self.w.cells.append((b.bid, ix, v, st, self.w.seq))
 
     def _is_handed_object(self, v):
         """a value that is exactly one plain symbol (a parameter, a global): binding another name to it makes an alias of that object, not a new array"""
@@ -1873,6 +2258,17 @@ def _chained(base, ix):
     """X[r][:, c] with index vectors / masks r and c selects the same elements as X[np.ix_(r, c)] (wherever both are valid they agree):
     one canonical value for the two spellings"""
     ub = unfn(base)
+    if ub is not None and ub[0] == "idx":
+        # rows and columns selected one after the other, one of them by a slice: X[:, c][r] and X[r][:, c] are X[r, c] when r or c is a slice
+        # (two index vectors would pair up element by element in X[r, c]; they are the np.ix_ case below)
+        full = F.fn("slice", NONE, NONE, NONE)
+        t0, t1 = untuple(ub[1][1]), untuple(ix)
+        if t0 is not None and len(t0) == 2 and eq(t0[0], full) and t1 is None and (_is_slice(t0[1]) or _is_slice(ix)) \
+                and (_is_vector_index(ix) or _is_slice(ix)) and (_is_vector_index(t0[1]) or _is_slice(t0[1])):
+            return F.fn("idx", ub[1][0], F.fn("tuple", ix, t0[1]))
+        if t0 is None and t1 is not None and len(t1) == 2 and eq(t1[0], full) and (_is_slice(ub[1][1]) or _is_slice(t1[1])) \
+                and (_is_vector_index(ub[1][1]) or _is_slice(ub[1][1])) and (_is_vector_index(t1[1]) or _is_slice(t1[1])):
+            return F.fn("idx", ub[1][0], F.fn("tuple", ub[1][1], t1[1]))
     if ub is None or ub[0] != "idx" or not _is_vector_index(ub[1][1]):
         return None
     t = untuple(ix)
@@ -1902,6 +2298,47 @@ def _is_mask(v):
     return False
 
 
+def _is_truth_value(v):
+    """is the value certainly a Python bool / numpy bool scalar: bool(x), a comparison, not x, isinstance(...), mask.any() / mask.all()"""
+    u = unfn(v) if is_rat(v) else None
+    if u is None:
+        return False
+    if u[0] in ("call:bool", "not", "call:isinstance", "call:callable", "call:np.isscalar", "call:np.iscomplexobj", "call:np.allclose") or u[0].startswith("cmp:"):
+        return True
+    if u[0].startswith("bool:"):
+        return all(isinstance(x, str) or _is_truth_value(x) for x in u[1])
+    return _quantifier(v) is not None
+
+
+PY_INT_HEADS = ("dim", "call:len", "attr:ndim", "attr:size", "call:int")
+
+
+def _is_py_int(v):
+    """is the value certainly a Python int: an integer constant, X.shape[k], len(x), x.ndim, x.size, and sums / products of such"""
+    if not is_rat(v) or not v.d.is_const() or v.d.const_value() != 1:
+        return False
+    for mono, c in v.n.t.items():
+        if getattr(c, "denominator", 1) != 1:
+            return False
+        for a, e in mono:
+            d = F.atom_desc(a)
+            if d[0] != "fn" or d[1] not in PY_INT_HEADS or e < 0:
+                return False
+    return True
+
+
+def _is_py_bool(v):
+    """is the value certainly a Python bool (`x is True` is meaningful; a numpy bool is never the object True)"""
+    u = unfn(v) if is_rat(v) else None
+    if u is None:
+        return False
+    if u[0] in ("call:bool", "not", "call:isinstance", "call:callable"):
+        return True
+    if u[0].startswith("cmp:") and len(u[1]) == 2:
+        return u[0] in ("cmp:Is", "cmp:IsNot") or (_is_py_int(u[1][0]) and _is_py_int(u[1][1]))
+    return False
+
+
 def _quantifier(v):
     """mask.any() / mask.all() over the whole array (no axis) -> ("any" | "all", mask) else None"""
     u = unfn(v) if is_rat(v) else None
@@ -1926,6 +2363,30 @@ def _count_of(v):
     return None
 
 
+def _is_attr_view(v):
+    """an attribute of an object (uset.iloc, x.flat): binding a name to it, or storing through it, reaches that object - no new array is made"""
+    u = unfn(v) if is_rat(v) else None
+    return u is not None and u[0].startswith("attr:") and u[0] not in ("attr:T", "attr:shape", "attr:size", "attr:ndim", "attr:values")
+
+
+def _mask_of_positions(v):
+    """as an index, np.flatnonzero(mask) / mask.nonzero()[0] selects exactly what the mask selects (also inside np.ix_): one canonical index"""
+    if not is_rat(v):
+        return v
+    u = unfn(v)
+    if u is not None and u[0] == "nonzero0" and len(u[1]) == 1 and _is_mask(u[1][0]):
+        return u[1][0]
+    sc = split_call(v)
+    if sc is not None and sc[0] == "np.ix_" and not sc[2] and any(is_rat(x) and _mask_of_positions(x) is not x for x in sc[1]):
+        return F.fn("call:np.ix_", *[_mask_of_positions(x) for x in sc[1]])
+    return v
+
+
+def _is_slice(v):
+    u = unfn(v) if is_rat(v) else None
+    return u is not None and u[0] == "slice"
+
+
 def _full_slice(v):
     u = unfn(v) if is_rat(v) else None
     return u is not None and u[0] == "slice" and all(eq(x, NONE) for x in u[1])
@@ -1939,7 +2400,33 @@ def _invert(v):
     u = unfn(v)
     if u is not None and u[0] == "invert":
         return u[1][0]
+    if u is not None and u[0] in ("mask:BitAnd", "mask:BitOr") and len(u[1]) == 2:
+        return _mask("BitOr" if u[0] == "mask:BitAnd" else "BitAnd", _invert(u[1][0]), _invert(u[1][1]))          # De Morgan: ~(a & b) is ~a | ~b
+    if u is not None and u[0] in ("cmp:Eq", "cmp:NotEq") and len(u[1]) == 2:
+        return _cmp("NotEq" if u[0] == "cmp:Eq" else "Eq", u[1][0], u[1][1])          # element-wise, also for NaN (the ordering comparisons are not complements there)
     return F.fn("invert", v)
+
+
+def _cmp(op, a, b):
+    """the value of a comparison.  x == 0 / x != 0 does not change when x is multiplied by a number of magnitude >= 1 (2 pi f is zero exactly where
+    f is), so such a factor is dropped"""
+    if op in ("Eq", "NotEq") and is_rat(a) and is_rat(b):
+        if a.is_zero() and not b.is_zero():
+            a, b = b, a
+        if b.is_zero():
+            fs = factors(a)
+            if fs is not None and len(fs[1]) >= 1:
+                c, atoms = fs
+                keep = F.const(1)
+                mag = abs(float(c))
+                for av, e in atoms:
+                    if symname(av) == "pi":
+                        mag *= 3.141592653589793 ** e
+                    else:
+                        keep = keep * av ** e
+                if mag >= 1 and not keep.is_const():
+                    a = keep
+    return F.fn("cmp:" + op, a, b)
 
 
 def _mask(op, a, b):
@@ -1972,7 +2459,11 @@ class Run:
         self.aliases = import_aliases(ctx, mod.rel) if mod is not None else None
         self.ev = self._make(env)
         if run:
-            self.ev.run(fn.body)
+            self.go()
+
+    def go(self):
+        """evaluate the function body (after the facts of the regime have been stated)"""
+        self.ev.run_top(self.fn.body)
 
     def _make(self, env, world=None):
         ev = CBEval(self.fn, world=world, facts=self.facts, env=dict(env), src=self.ctx.src, cond=self.cond, **self.kw)
@@ -2003,6 +2494,14 @@ class Run:
         if not is_rat(v):
             raise Unsupported(f"fact `{text_or_value}` is not a formula: {v!r}")
         self.facts.intvec.append(v)
+
+    def key(self, mapping, key, present, **bind):
+        """state whether a mapping the function is handed holds a key: m[key] then is a value / raises KeyError, `key in m`, m.get(key) follow"""
+        m = self.root(mapping, **bind) if isinstance(mapping, str) else mapping
+        k = self.root(key, **bind) if isinstance(key, str) else key
+        if not is_rat(m) or not is_rat(k):
+            raise Unsupported(f"fact about `{mapping}[{key}]` is not a formula")
+        self.facts.keys.append((m, k, bool(present)))
 
     def same(self, got, want, **bind):
         w = self.root(want, **bind) if isinstance(want, str) else want
@@ -2041,6 +2540,7 @@ class Run:
             w = u[1][1]
         else:
             w = index
+        w = _mask_of_positions(w)          # as stores are recorded: the positions of a mask select what the mask selects
         found = None
         for ix, val, _ in self.cells(v):
             if eq(ix, w):
